@@ -87,6 +87,10 @@ func c02(c *Ctx) {
 	}
 	// a vector of many elements is as much the schema's serialisation as a vector of two: the nesting level the
 	// decoder counts is given back after every value, so siblings are read at their parent's level plus one
+	r.Rule("R02.W", "nothing reachable from tl.Marshal writes a package-level variable or appends / copies into the storage of one (a shared zero-padding array filled by one value shows through the leading zeros of the next)", 1)
+	if f := c.P.Func(load.TLPkg, "", "Marshal"); f != nil {
+		c.noGlobalWrites("R02.W", []*ssa.Function{f}, "the encoding path: the bytes of one value would depend on the values encoded before it")
+	}
 	r.Rule("R02.D", "the nesting level counted by the decoder is given back on every exit (= R01.V depth:balanced, filed under C02): the k-th element of a vector is not refused as k levels deep", 1)
 	c.depthBalanced("R02.D")
 	r.Rule("R02.R", "the encoder walks nested values recursively: no list kept in a field of the Encoder and filled by one activation is read after a call that may re-enter it (the nested object would overwrite its parent's list)", 1)
